@@ -203,7 +203,8 @@ class Gate(dict):
         if self.name in CLIFFORD_GATES:
             return True
         elif self.name in {"RX", "RY", "RZ", "PHASE"}:
-            return isclose(self.parameter % (pi / 2), 0, abs_tol=abs_tol)
+            remainder = self.parameter % (pi / 2)
+            return isclose(remainder, 0, abs_tol=abs_tol) or isclose(remainder, pi / 2, abs_tol=abs_tol)
         else:
             return False
 
